@@ -164,6 +164,7 @@ def check(ctx):
     oset_eq_is_ordered(ctx)
     oset_link_writers(ctx)
     modict_raw_lists(ctx)
+    no_mutation_of_iterated_keys(ctx)
 
 
 def super_targets_do_not_redispatch(ctx):
@@ -259,3 +260,34 @@ def modict_raw_lists(ctx):
                 ctx.bad("T7-rawlist", x, "modict.%s iterates %s" % (name, src(x.iter)), "self[key] is one value, not the list")
     if not k:
         ctx.ok("T7-rawlist", M.node, "%d modict methods reach their value lists through super()" % len(M.methods))
+
+
+def no_mutation_of_iterated_keys(ctx):
+    """an odict method that takes another mapping and, while looping over it, removes/appends/inserts keys of self._keys must not
+    be looping over self._keys itself: the argument may be the odict (x.reorder(x), x.update(x)); unless that case is excluded
+    before the loop, the loop iterates a snapshot"""
+    ctx.rule("T11-selfalias", "odict/lodict/modict methods that mutate self._keys inside `for .. in <argument>` iterate a copy (or exclude `arg is self`)")
+    n = 0
+    for cn in ("odict", "lodict", "modict"):
+        C = ctx.cls("aid.odicting", cn)
+        for name, f in C.methods.items():
+            if not any(b is f for b in C.node.body):
+                continue
+            params = {a.arg for a in f.args.args[1:]}
+            alias = {"self._keys"} | {src(st.targets[0]) for st in ast.walk(f) if isinstance(st, ast.Assign) and src(st.value) == "self._keys"}
+            for lp in [x for x in ast.walk(f) if isinstance(x, ast.For)]:
+                it = lp.iter
+                if not (isinstance(it, ast.Name) and it.id in params):
+                    continue
+                muts = [x for b in lp.body for x in ast.walk(b) if isinstance(x, ast.Call) and isinstance(x.func, ast.Attribute) and
+                        x.func.attr in ("remove", "append", "insert", "pop") and src(x.func.value) in alias]
+                if not muts:
+                    continue
+                n += 1
+                V = FuncView(ctx, f)
+                node = next((nd for nd in V.cfg.nodes if nd.kind == "for" and nd.ast is lp), None)
+                excluded = node is not None and any(fct.replace(" ", "") in ("%sisnotself" % it.id, "selfisnot%s" % it.id) for fct in V.facts(node))
+                ctx.check(excluded, "T11-selfalias", lp, "%s.%s: for .. in %s while changing the key list" % (cn, name, it.id),
+                          "called with the dictionary itself the loop walks the list it is rearranging: keys are skipped and the order "
+                          "changes (x.reorder(x) is documented as a no-op)")
+    ctx.ok("T11-selfalias", "ioflo/aid/odicting.py", "%d loops over an argument that rearrange self._keys without a snapshot or `is self` exclusion" % n)
